@@ -5,6 +5,7 @@ use crate::hv::e1::{Case, Ctx};
 use crate::hv::isa::{Fields, Isa, Mode, Sem, Sz, ROWS};
 use crate::hv::mach::{ABWCR, ASTCR, DRCRA, WCRH, WCRL};
 use crate::hv::sem::{set_r, M24};
+use serde_json::json;
 use crate::hv::shard::{no_extra, Prop, Tier, Unit};
 
 /// (ABWCR, ASTCR, WCRH, WCRL, DRCRA)
@@ -241,6 +242,82 @@ fn cases_for_row(isa: &Isa, row: usize, pc: u32, out: &mut Vec<Case>) {
     }
 }
 
+/// One (background, code base) case of unit charges-through-run; returns the violation text and the instruction index.
+pub fn charges_through_run_case(ctx: &mut Ctx, b: u8, base: u32) -> Option<(String, usize)> {
+    use crate::cpu::verif_hooks;
+                ctx.m = crate::hv::mach::Mach::new();
+                for a in (0xfee000u32..=0xfee0ff).chain(0xffff20..=0xffffe9) {
+                    if ![0xfee020u32, 0xfee021, 0xfee022, 0xfee023, 0xfee026].contains(&a) && !crate::hv::sem::is_port_reg(a) && !crate::hv::sem::is_timer_reg(a) {
+                        let _ = ctx.m.cpu.bus.write(a, b);
+                    }
+                }
+                ctx.m.shadow_from_real();
+                // the program
+                let unit = super::longprog::straight_code(&ctx.isa);
+                let mut code: Vec<u8> = Vec::new();
+                while code.len() + unit.len() < 0x2f00 {
+                    code.extend_from_slice(&unit);
+                }
+                let end = base + code.len() as u32;
+                code.extend_from_slice(&[0x40, 0xfe]);
+                ctx.m.poke_bytes(base, &code);
+                let start_er = [0x1111_0000u32, 0x2222_0000, base, 0x4444_0000, 0x8002_8003, 0x0000_1003, 0x8421_c3a5, 0x00ff_e000];
+                {
+                    let cpu = &mut ctx.m.cpu;
+                    cpu.er = start_er;
+                    cpu.exit_addr = end;
+                    cpu.vh_set_ccr(0);
+                    cpu.vh_set_state_sum(0);
+                    cpu.bus.cpu_state_sum = 0;
+                }
+                let trace: std::rc::Rc<std::cell::RefCell<Vec<(u32, [u32; 8], u8, usize)>>> = std::rc::Rc::new(std::cell::RefCell::new(Vec::new()));
+                let t2 = trace.clone();
+                verif_hooks::set_run_loop_hook(Some(Box::new(move |cpu: &mut crate::cpu::Cpu| {
+                    let mut t = t2.borrow_mut();
+                    t.push((cpu.vh_pc(), cpu.er, cpu.vh_ccr(), cpu.vh_state_sum()));
+                    t.len() > 6000
+                })));
+                let r = {
+                    let cpu = &mut ctx.m.cpu;
+                    std::panic::catch_unwind(std::panic::AssertUnwindSafe(|| cpu.run()))
+                };
+                verif_hooks::set_run_loop_hook(None);
+                let final_sum = ctx.m.cpu.vh_state_sum();
+                let mut t = trace.borrow().clone();
+                t.push((ctx.m.cpu.vh_pc(), ctx.m.cpu.er, ctx.m.cpu.vh_ccr(), final_sum));
+                let case_json = json!({"charges_through_run": {"background": b, "base": format!("{:x}", base)}});
+                if !matches!(r, Ok(Ok(()))) {
+                    let _ = case_json;
+                    return Some((format!("the straight-line program did not run to its end through run(): {:?}", r.map(|x| x.map_err(|e| format!("{:#}", e))).map_err(|_| "panic")), 0));
+                }
+                // judge every instruction
+                ctx.closed_form_cost = true;
+                let mut factor = 0usize;
+                for k in 0..t.len() - 1 {
+                    let (pc, er, ccr, sum) = t[k];
+                    let delta = t[k + 1].3 - sum;
+                    let mut c = Case::new(pc, &[]);
+                    c.code_len = 0;
+                    c.code_sticky = true;
+                    c.er = er;
+                    c.ccr = ccr;
+                    let (_, ro) = ctx.reference(&c, &crate::hv::sem::Defects::default());
+                    ctx.st.cases += 1;
+                    ctx.st.nontrivial += 1;
+                    if let Some(exp) = ctx.expected_cycles(&ro) {
+                        if factor == 0 && exp > 0 {
+                            factor = delta / exp as usize;
+                        }
+                        if exp as usize * factor != delta || factor == 0 {
+                            ctx.closed_form_cost = false;
+                            return Some((format!("instruction {} at {:06x}: run() advanced the state count by {}, the form's cycle mix ({}) costs {} x {} = {}", k, pc, delta, crate::hv::e1::cyc_text(&ro), exp, factor, exp as usize * factor), k));
+                        }
+                    }
+                }
+                ctx.closed_form_cost = false;
+                None
+}
+
 pub fn c20(_tier: Tier, _seed: u64) -> Prop {
     let mut units = Vec::new();
     for (ri, r) in ROWS.iter().enumerate() {
@@ -269,6 +346,22 @@ pub fn c20(_tier: Tier, _seed: u64) -> Prop {
             },
         ));
     }
+    // ---- charges as the real run() adds them up, with time passing for the peripherals between instructions and the
+    //      rest of the I/O page filled with a background (a peripheral that steals cycles once it has been started)
+    units.push(Unit::new(
+        "charges-through-run",
+        16,
+        "a straight-line program of about 3000 instructions (every register / immediate form in turn) in DRAM and in on-chip RAM, executed by the real Cpu::run() (peripherals see the elapsed states after every instruction) on a machine whose I/O registers other than bus-controller, port and timer registers were filled through Bus::write with one of 16 background values: the state count must advance, for every instruction, by the form's cycle mix priced with the closed form of C19 (times run()'s constant factor)",
+        move |ctx, chunk| {
+            let b = crate::hv::dom::K16[chunk as usize];
+            for &base in &[0x42_0000u32, 0xff_c100] {
+                if let Some((msg, k)) = charges_through_run_case(ctx, b, base) {
+                    ctx.custom_violation("c20run", msg, json!({"charges_through_run": {"background": b, "base": format!("{:x}", base)}, "instruction": k}), json!(null), json!(null));
+                }
+            }
+            ctx.m = crate::hv::mach::Mach::new();
+        },
+    ));
     Prop {
         id: "C20",
         level: "exploration",
